@@ -185,7 +185,7 @@ class Ctx:
 
         The seed only rotates the order in which shards are handed out; the
         enumeration itself is seed independent."""
-        items = list(items)
+        items = self._estimate_subset(list(items))
         if items:
             r = self.seed % len(items)
             items = items[r:] + items[:r]
@@ -198,10 +198,19 @@ class Ctx:
         ):
             self._absorb(res)
 
+    def _estimate_subset(self, items: list) -> list:
+        """Developer aid for sizing a tier (never used by a registered command): with
+        VERIF_ESTIMATE=k only every k-th shard is run, and the run is marked as capped."""
+        k = int(os.environ.get("VERIF_ESTIMATE", "0") or 0)
+        if k <= 1 or len(items) <= k:
+            return items
+        self.acc.cap(f"estimate mode: every {k}-th of {len(items)} shards only")
+        return items[::k]
+
     def pmap_tasks(self, tasks) -> None:
         """Like pmap for heterogeneous tasks [(func, arg), ...]: one pass over the pool, no
         barrier between the phases of a check (stragglers of one phase overlap the next)."""
-        tasks = list(tasks)
+        tasks = self._estimate_subset(list(tasks))
         if tasks:
             r = self.seed % len(tasks)
             tasks = tasks[r:] + tasks[:r]
